@@ -55,11 +55,14 @@ pub enum ErrSpan {
 }
 impl ErrSpan {
     /// Gets the first span.
+    /// 
+    /// If this error has no spans at all (e.g., errors from linking, which cannot point
+    /// into a single source), this is the empty span `0..0`.
     pub fn first(&self) -> Span {
         match self {
             ErrSpan::One(r)      => r.clone(),
             ErrSpan::Two([r, _]) => r.clone(),
-            ErrSpan::Many(r)     => r.first().unwrap().clone(),
+            ErrSpan::Many(r)     => r.first().cloned().unwrap_or(0..0),
         }
     }
 
